@@ -248,3 +248,123 @@ Definition entry_ok (e : entry) : bool :=
   | None => false
   end.
 Definition row_ok (e : entry) : bool := if in_scope e then entry_ok e else true.
+
+(* ------------------------------------------------------------------ specification *)
+Definition tmpl_valid (t : tmpl) : bool :=
+  match t with
+  | TBin op ShUn _ _ => false
+  | TBin op _ _ k => op_valid op k
+  | TShift _ ShUn _ => false
+  | TShift op _ k => is_integer k && match op with Shl | Shr => true | _ => false end
+  | TUn Neg k => numeric k
+  | TUn Compl k => is_integer k
+  | TUn LNot k => match k with GBool => true | _ => false end
+  | TUn Plus _ => false
+  | TMulPow2 k negy lit => is_integer k && (negb negy || is_signed k) && match lit with Some z => 0 <=? z | None => true end
+  | TQuoPow2 k negy => is_integer k && (negb negy || is_signed k)
+  | TRemPow2 k => is_integer k
+  | TAsU64 k => is_integer k
+  | TAsU64Const => true
+  end.
+
+Section Spec.
+  Variable F : Type.
+  Variable fbin : gokind -> binop -> F -> F -> F.
+  Variable fcmp : gokind -> binop -> F -> F -> bool.
+  Variable fun1 : gokind -> unop -> F -> F.
+  Variable fconv : gokind -> gokind -> F -> F.
+  Variable fpart : gokind -> bool -> F -> F.
+  Variable fofbits : gokind -> Z -> Z -> F.
+
+  Notation value := (value F).
+  Notation opfun := (opfun F).
+  Notation go_binop := (go_binop F fbin fcmp).
+  Notation go_unop := (go_unop F fun1).
+  Notation go_shift := (go_shift F).
+  Notation M := (M F).
+
+  (* what the closure is built from: the operand functions, the constant operand, the exponent of a power of two *)
+  Record inputs := mkInputs { in_fx : opfun; in_fy : opfun; in_c : value; in_sh : Z }.
+
+  (* the constant operand as the closure sees it: K(reflect.ValueOf(c).Int()) etc.
+     For integers, bools and strings this is c itself (Proof.norm_const_id); for floats it is the
+     float64 / complex128 round trip of the abstract conversion *)
+  Definition norm_const (k : gokind) (c : value) : res value :=
+    rbind (accessor F fconv (acc_meth k) c) (fun v => if wide k then Ok v else convert F fconv k v).
+
+  Definition roots_of (t : tmpl) (i : inputs) : cenv F :=
+    let fx := in_fx i in let fy := in_fy i in let c := in_c i in
+    match t with
+    | TBin _ ShVV _ k => [(xeFun, CF F k fx); (yeFun, CF F k fy)]
+    | TBin _ ShVC _ k => [(xeFun, CF F k fx); (yeValue, CV F c)]
+    | TBin _ ShCV _ k => [(xeValue, CV F c); (yeFun, CF F k fy)]
+    | TShift _ ShVV k => [(xeFun, CF F k fx); (yeAsU64, CF F GUint64 fy)]
+    | TShift _ ShVC k => [(xeFun, CF F k fx); (yeConstU64, CV F c)]
+    | TShift _ ShCV k => [(xeValue, CV F c); (yeAsU64, CF F GUint64 fy)]
+    | TUn _ k => [(xeFun, CF F k fx)]
+    | TMulPow2 k _ _ | TQuoPow2 k _ | TRemPow2 k => [(xeFun, CF F k fx); (EVar V_y, CV F (VInt GUint64 (2 ^ in_sh i)))]
+    | TAsU64 k => [(eFun, CF F k fx)]
+    | TAsU64Const => [(eConstU64, CV F c)]
+    | _ => []
+    end.
+
+  Definition on_int (a : value) (f : Z -> M value) : M value :=
+    match a with VInt _ x => f x | _ => stuck F end.
+
+  (* THE specification of each template, in terms of the Go operators of Sem / GoInt *)
+  Definition spec_tmpl (t : tmpl) (i : inputs) (p : nat) : M value :=
+    let fx := in_fx i in let fy := in_fy i in let c := in_c i in let sh := in_sh i in
+    match t with
+    | TBin op ShVV _ k => bind F (fx p) (fun a => bind F (fy p) (fun b => lift F (go_binop k op a b)))
+    | TBin op ShVC _ k =>
+        match norm_const k c with Ok c' => bind F (fx p) (fun a => lift F (go_binop k op a c')) | _ => stuck F end
+    | TBin op ShCV _ k =>
+        match norm_const k c with Ok c' => bind F (fy p) (fun b => lift F (go_binop k op c' b)) | _ => stuck F end
+    | TShift op ShVV k => bind F (fx p) (fun a => bind F (fy p) (fun n => lift F (go_shift k op a n)))
+    | TShift op ShVC k => bind F (fx p) (fun a => lift F (go_shift k op a c))
+    | TShift op ShCV k =>
+        match norm_const k c with Ok c' => bind F (fy p) (fun n => lift F (go_shift k op c' n)) | _ => stuck F end
+    | TUn op k => bind F (fx p) (fun a => lift F (go_unop op a))
+    | TMulPow2 k negy lit =>
+        let e := match lit with Some z => z | None => sh end in
+        bind F (fx p) (fun a => on_int a (fun x => ret F (VInt k (GoInt.mul (ikd k) x (if negy then - 2 ^ e else 2 ^ e)))))
+    | TQuoPow2 k negy =>
+        bind F (fx p) (fun a => on_int a (fun x => ret F (VInt k (GoInt.quo_total (ikd k) x (if negy then - 2 ^ sh else 2 ^ sh)))))
+    | TRemPow2 k =>
+        bind F (fx p) (fun a => on_int a (fun x => ret F (VInt k (GoInt.rem_total (ikd k) x (2 ^ sh)))))
+    | TAsU64 k =>
+        bind F (fx p) (fun a => on_int a (fun n =>
+          if is_signed k && (n <? 0) then (fun _ => Panic PNegShift) else ret F (VInt GUint64 n)))
+    | TAsU64Const => ret F c
+    | _ => stuck F
+    end.
+
+  (* hypotheses on the inputs: operand functions return well-formed values of their kind, the constant is a
+     well-formed value of its kind, 2^sh is a constant of kind k *)
+  Definition inputs_ok (t : tmpl) (i : inputs) : Prop :=
+    let fx := in_fx i in let fy := in_fy i in let c := in_c i in let sh := in_sh i in
+    match t with
+    | TBin _ ShVV _ k => wf_opfun F k fx /\ wf_opfun F k fy
+    | TBin _ ShVC _ k => wf_opfun F k fx /\ wf_value F k c
+    | TBin _ ShCV _ k => wf_value F k c /\ wf_opfun F k fy
+    | TShift _ ShVV k => wf_opfun F k fx /\ wf_opfun F GUint64 fy
+    | TShift _ ShVC k => wf_opfun F k fx /\ wf_value F GUint64 c
+    | TShift _ ShCV k => wf_value F k c /\ wf_opfun F GUint64 fy
+    | TUn _ k => wf_opfun F k fx
+    | TMulPow2 k _ _ => wf_opfun F k fx /\ 0 <= sh <= 63
+    | TQuoPow2 k _ | TRemPow2 k => wf_opfun F k fx /\ 0 <= sh <= GoInt.width (ikd k) - 1
+    | TAsU64 k => wf_opfun F k fx
+    | TAsU64Const => wf_value F GUint64 c
+    | _ => True
+    end.
+
+  (* the closure called with the env pointer p *)
+  Definition run (roots : cenv F) (c : closure) (p : nat) : M value :=
+    fun s => match denote F fbin fcmp fun1 fconv fpart fofbits 0 roots c [VEnv p] s with
+             | Ok ([v], s') => Ok (v, s')
+             | Ok _ => Stuck
+             | Panic q => Panic q
+             | Stuck => Stuck
+             | OutOfFuel => OutOfFuel
+             end.
+End Spec.
